@@ -36,11 +36,11 @@ CHECKS = {
     "C15": ("runtime monitoring: adapter-stack oracle (multiset of collected items, map closure counts, enumerate index = source position, take = first min(n,len))", "29 adapter stacks x 5 terminals x 2 sources x 4 legal size_hint reports of the source; unique item positions make multiset and index checks unambiguous.", "5/C15"),
     "C16": ("runtime monitoring: selective-polling invariant (I4) asserted inside every child poll in the std configuration", "A child that last returned Pending may be polled only if a waker handed to it (or to an earlier occupant of its group slot) fired since its previous poll started; spurious polls and single-child wake-ups are generated on purpose, sizes up to 257.", "5/C16"),
     "C17": ("runtime monitoring: provenance log of merge yields; sliding-window fairness oracle for an always-ready input", "One input always has an item; every window of N consecutive yields must contain it, for every position, container, N and configuration.", "5/C17"),
-    "C19": ("runtime monitoring: event-log oracle for wait_until (no inner poll before the deadline resolves, no deadline poll after, same-poll hand-over)", "Scripted deadline and inner future/stream; ordering rules asserted inside child polls and per poll.", "5/C19"),
+    "C19": ("runtime monitoring: event-log oracle for wait_until (no inner poll before the deadline resolves, no deadline poll after, same-poll hand-over); exhaustive small-scope schedule enumeration", "Scripted deadline and inner future/stream; ordering rules asserted inside child polls and per poll.", "5/C19"),
 }
 
 checks = []
-EXTRA = {'C13': ' Both tiers also run an exhaustive small-scope sweep of pipelines (fcv dfsc: every adapter stack x for_each x source kind, source length <= 2 (thorough: <= 3), limits 1|2|none, every readiness pattern of source / map / closure futures and every wake order).', 'C02': ' Workloads also vary what only inputs can show: Vec inputs with spare capacity, child types without drop glue, zero-sized outputs/items (engine Z), children whose destructor wakes a waker.', 'C03': ' An engine-T layer repeats the invariant with wakers fired from other threads. Streams are additionally polled by the consumer after their final None (stale wakes in between); a quarter of the std shards run a build without debug assertions.', 'C11': " Both tiers also run an exhaustive small-scope sweep of operation histories (fcv dfsb: every history of <= 8 operations over <= 3 members with <= 1 Pending step each, plain and keyed, with_capacity(0|1), 2 configurations; evidence records exhausted=true only if every odometer wrapped). 'Mass' histories (11-18 members inserted in a burst, degenerate scripts) make ten and more members finish in one poll; an engine-T layer fires the members' wakers from other threads.", 'C12': " Both tiers also run an exhaustive small-scope sweep of operation histories (fcv dfsb: every history of <= 7 operations over <= 2 members with <= 1 Pending step and <= 1 item each, plain and keyed, with_capacity(0|1), 2 configurations). 'Mass' histories (11-18 members inserted in a burst, degenerate scripts) make ten and more members end in one poll; an engine-T layer fires the members' wakers from other threads.", 'C14': ' Both tiers also run an exhaustive small-scope sweep of pipelines (fcv dfsc: every adapter stack x fallible terminal x source kind, source length <= 2 (thorough: <= 3), every readiness pattern of source / map / work futures, every Ok/Err assignment, every wake order). After the first Err no in-flight work future may be driven to completion, and the operation must not remain Pending at quiescence even if siblings never complete.', 'C15': ' Both tiers also run an exhaustive small-scope sweep of pipelines (fcv dfsc: 29 adapter stacks x 3 terminals x 2 source kinds, source length <= 2 (thorough: <= 3), limits 1|2|none, takes 0|1|2|100, every readiness pattern and wake order). Items taken OUT OF THE SOURCE are bounded by take(n) as well (an item pulled and thrown away is lost); non-fused sources, huge limits, zero-sized items.', 'C16': ' An engine-T layer checks the same invariant under wake-ups from other threads (announced / in-flight wake-call accounting).', 'C17': ' 4 % long runs (530-830 yields), one or two always-ready inputs, Vec merges of 24..129 inputs, and an engine-T layer (fairness under wake-ups from other threads).', 'C20': " An engine-T layer repeats this with the siblings' wakers fired from other threads.", 'C19': ' Flat wait_until streams also get non-fused inner streams (the consumer polls on after None and the wrapper must forward), and inner streams with exact size hints; an engine-T layer fires the deadline\'s and the inner child\'s wakers from other threads.'}
+EXTRA = {'C13': ' Both tiers also run an exhaustive small-scope sweep of pipelines (fcv dfsc: every adapter stack x for_each x source kind, source length <= 2 (thorough: <= 3), limits 1|2|none, every readiness pattern of source / map / closure futures and every wake order).', 'C02': ' Workloads also vary what only inputs can show: Vec inputs with spare capacity, child types without drop glue, zero-sized outputs/items (engine Z), children whose destructor wakes a waker.', 'C03': ' An engine-T layer repeats the invariant with wakers fired from other threads. Streams are additionally polled by the consumer after their final None (stale wakes in between); a quarter of the std shards run a build without debug assertions.', 'C11': " Both tiers also run an exhaustive small-scope sweep of operation histories (fcv dfsb: every history of <= 8 operations over <= 3 members with <= 1 Pending step each, plain and keyed, with_capacity(0|1), 2 configurations; evidence records exhausted=true only if every odometer wrapped). 'Mass' histories (11-18 members inserted in a burst, degenerate scripts) make ten and more members finish in one poll; an engine-T layer fires the members' wakers from other threads.", 'C12': " Both tiers also run an exhaustive small-scope sweep of operation histories (fcv dfsb: every history of <= 7 operations over <= 2 members with <= 1 Pending step and <= 1 item each, plain and keyed, with_capacity(0|1), 2 configurations). 'Mass' histories (11-18 members inserted in a burst, degenerate scripts) make ten and more members end in one poll; an engine-T layer fires the members' wakers from other threads.", 'C14': ' Both tiers also run an exhaustive small-scope sweep of pipelines (fcv dfsc: every adapter stack x fallible terminal x source kind, source length <= 2 (thorough: <= 3), every readiness pattern of source / map / work futures, every Ok/Err assignment, every wake order). After the first Err no in-flight work future may be driven to completion, and the operation must not remain Pending at quiescence even if siblings never complete.', 'C15': ' Both tiers also run an exhaustive small-scope sweep of pipelines (fcv dfsc: 29 adapter stacks x 3 terminals x 2 source kinds, source length <= 2 (thorough: <= 3), limits 1|2|none, takes 0|1|2|100, every readiness pattern and wake order). Items taken OUT OF THE SOURCE are bounded by take(n) as well (an item pulled and thrown away is lost); non-fused sources, huge limits, zero-sized items.', 'C16': ' An engine-T layer checks the same invariant under wake-ups from other threads (announced / in-flight wake-call accounting).', 'C17': ' 4 % long runs (530-830 yields), one or two always-ready inputs, Vec merges of 24..129 inputs, and an engine-T layer (fairness under wake-ups from other threads).', 'C20': " An engine-T layer repeats this with the siblings' wakers fired from other threads.", 'C19': ' Both tiers also run the exhaustive small-scope sweep of wait_until over a future and over a stream (every deadline / inner script with <= 1 Pending step, every schedule incl. mid-poll fires and a spurious poll). Flat wait_until streams also get non-fused inner streams (the consumer polls on after None and the wrapper must forward), and inner streams with exact size hints; an engine-T layer fires the deadline\'s and the inner child\'s wakers from other threads.'}
 
 for pid, (tech, text, ref) in CHECKS.items():
     text += EXTRA.get(pid, "")
